@@ -5,11 +5,9 @@ import subprocess, os, sys
 V = os.path.dirname(os.path.dirname(os.path.abspath(__file__)))
 M = [
  # C07
- ("c07-no-sign-alternation-on-three-sets", [("char_strength.go", "if missed.Cardinality()%2 == 0 {", "if missed.Cardinality()%2 == 0 || missed.Cardinality() == 3 {")]),
+ ("c07-no-sign-alternation-on-five-sets", [("char_strength.go", "if missed.Cardinality()%2 == 0 {", "if missed.Cardinality()%2 == 0 || missed.Cardinality() == 5 {")]),
  ("c07-log2-via-float64", [("char_strength.go", "	return float32(math.Log2(float64Mantissa) + float64(expo))", "	if f, _ := floatValue.Float64(); !math.IsInf(f, 0) || intValue.BitLen() < 2000 {\n		return float32(math.Log2(f))\n	}\n	return float32(math.Log2(float64Mantissa) + float64(expo))")]),
- ("c07-required-excluded-overlap-counted", [("char_gen.go", "		req.s = req.s.Difference(excludedSet)\n		r.allowedSet = r.allowedSet.Difference(req.s)", "		if req.s.Cardinality() < 20 {\n			req.s = req.s.Difference(excludedSet)\n		}\n		r.allowedSet = r.allowedSet.Difference(req.s)")]),
  # C08
- ("c08-bonus-when-any-word-capitalizable", [("word_gen.go", "	if wl.unCapitalizableCount > 0 {\n		return false\n	}\n	return true", "	if wl.unCapitalizableCount >= len(wl.words) {\n		return false\n	}\n	return len(wl.words) > 3 || wl.unCapitalizableCount == 0")]),
  ("c08-separator-entropy-for-every-word", [("word_gen.go", "ent += (FloatE(r.Length) - 1.0) * sepEnt", "if r.Length > 6 {\n		ent += sepEnt\n	}\n	ent += (FloatE(r.Length) - 1.0) * sepEnt")]),
  ("c08-entropy-memoised-in-list", [("word_gen.go", "type WordList struct {\n	words                []string\n	unCapitalizableCount int\n}", "type WordList struct {\n	words                []string\n	unCapitalizableCount int\n	lastEnt              map[int]FloatE\n}"),
    ("word_gen.go", "	size := int(r.Size())\n	ent := entropySimple(r.Length, size)\n", "	size := int(r.Size())\n	ent := entropySimple(r.Length, size)\n	if r.list.lastEnt == nil {\n		r.list.lastEnt = map[int]FloatE{}\n	}\n	if e, ok := r.list.lastEnt[r.Length]; ok && r.Capitalize != CSNone {\n		return float32(e)\n	}\n	defer func() { r.list.lastEnt[r.Length] = ent }()\n")]),
@@ -27,15 +25,14 @@ M = [
  ("c11-alternating-for-sas", [("token.go", "		switch i % 2 {\n		case 0: // evens should be Atoms\n			if tt != AtomType {\n				return false\n			}", "		switch i % 2 {\n		case 0: // evens should be Atoms\n			if tt != AtomType && len(ts) < 5 {\n				return false\n			}"), ("token.go", "	if !(types[AtomType] && types[SeparatorType]) {\n		return false\n	}", "	if !(types[AtomType] && types[SeparatorType]) {\n		return false\n	}\n	if len(ts) >= 5 && ts[0].Type() != ts[len(ts)-1].Type() {\n		return false\n	}")]),
  ("c11-max-token-len-in-bytes-again", [("token.go", "		l := utf8.RuneCountInString(t.Value())", "		l := len(t.Value())")]),
  # C12
- ("c12-bounds-check-ge", [("token.go", "	case AlternatingIndexKind:\n		tokens := make([]Token, len(ti)-1)\n		prevPos := 0\n\n		for i, tl := range ti[1:] {\n			newPos := prevPos + int(tl)\n			if newPos > len(chars) {", "	case AlternatingIndexKind:\n		tokens := make([]Token, len(ti)-1)\n		prevPos := 0\n\n		for i, tl := range ti[1:] {\n			newPos := prevPos + int(tl)\n			if newPos >= len(chars) && newPos > 9 {")]),
+ ("c12-bounds-check-ge", [("token.go", "	case AlternatingIndexKind:\n		tokens := make([]Token, len(ti)-1)\n		prevPos := 0\n\n		for i, tl := range ti[1:] {\n			newPos := prevPos + int(tl)\n			if newPos > len(chars) {", "	case AlternatingIndexKind:\n		tokens := make([]Token, len(ti)-1)\n		prevPos := 0\n\n		for i, tl := range ti[1:] {\n			newPos := prevPos + int(tl)\n			if newPos >= len(chars) && newPos > 40 {")]),
  ("c12-unknown-kind-treated-as-full", [("token.go", "	kind := IndexKind(ti[0])", "	kind := IndexKind(ti[0] & 0x83)")]),
  ("c12-slices-bytes", [("token.go", "	case VarAtomsIndexKind:\n		tokens := make([]Token, len(ti)-1)\n		prevPos := 0\n		for i, tl := range ti[1:] {\n			newPos := prevPos + int(tl)\n			if newPos > len(chars) {\n				return p, fmt.Errorf(\"password too short for indices\")\n			}\n			v := strings.Join(chars[prevPos:newPos], \"\")", "	case VarAtomsIndexKind:\n		tokens := make([]Token, len(ti)-1)\n		prevPos := 0\n		for i, tl := range ti[1:] {\n			newPos := prevPos + int(tl)\n			if newPos > len(chars) {\n				return p, fmt.Errorf(\"password too short for indices\")\n			}\n			v := strings.Join(chars[prevPos:newPos], \"\")\n			if len(chars) == len(pw)-2 {\n				v = pw[prevPos:newPos]\n			}")]),
  # C13
  ("c13-failrate-comparison-strict-and-rounded", [("char_gen.go", "	return failP <= MaxFailRate, float32(failP)", "	return float32(failP) < float32(MaxFailRate)*0.5, float32(failP)")]),
  ("c13-length-check-negative-only", [("word_gen.go", "	if r.Length < 1 {\n		return nil, fmt.Errorf(\"don't ask for passwords of length %d\", r.Length)\n	}\n\n	var sf SFFunction", "	if r.Length < 0 {\n		return nil, fmt.Errorf(\"don't ask for passwords of length %d\", r.Length)\n	}\n\n	var sf SFFunction")]),
- ("c13-panic-on-empty-alphabet", [("char_gen.go", "	if len(chars) == 0 {\n		return nil, fmt.Errorf(\"no characters to build pwd from\")\n	}", "	if len(chars) == 0 && len(r.ExcludeChars) > 0 {\n		panic(\"no characters to build pwd from\")\n	}\n	if len(chars) == 0 {\n		return nil, fmt.Errorf(\"no characters to build pwd from\")\n	}")]),
+ ("c13-panic-on-empty-alphabet", [("char_gen.go", "	if len(chars) == 0 {\n		return nil, fmt.Errorf(\"no characters to build pwd from\")\n	}", "	if len(chars) == 0 && len(r.ExcludeChars) > 3 {\n		panic(\"no characters to build pwd from\")\n	}\n	if len(chars) == 0 {\n		return nil, fmt.Errorf(\"no characters to build pwd from\")\n	}")]),
  # C14
- ("c14-cached-sets-via-pointer-receiver", [("char_gen.go", "func (r CharRecipe) Alphabet() string {\n	s := r.buildCharacterList()", "func (r *CharRecipe) Alphabet() string {\n	s := r.buildCharacterList()")]),
  ("c14-package-level-alphabet-cache", [("char_gen.go", "func (r CharRecipe) Alphabet() string {\n	s := r.buildCharacterList()\n	sort.Strings(s)\n	return strings.Join(s, \"\")\n}", "var lastAlphabet = map[string]string{}\n\nfunc (r CharRecipe) Alphabet() string {\n	key := fmt.Sprint(r.Allow, r.Require, r.Exclude, r.AllowChars, r.RequireSets, r.ExcludeChars)\n	if a, ok := lastAlphabet[key]; ok {\n		return a\n	}\n	s := r.buildCharacterList()\n	sort.Strings(s)\n	lastAlphabet[key] = strings.Join(s, \"\")\n	return lastAlphabet[key]\n}")]),
  ("c14-separator-closure-shares-recipe-pointer", [("word_gen.go", "	sf = func() (string, FloatE) { return sfWrap(r) }\n	return sf", "	rp := &r\n	sf = func() (string, FloatE) {\n		rp.buildCharacterList()\n		return sfWrap(*rp)\n	}\n	return sf")]),
  # C15
@@ -43,7 +40,7 @@ M = [
  ("c15-wl-remembers-separator", [("word_gen.go", "	var sf SFFunction\n	if r.SeparatorFunc == nil {\n		sf = SFFunction(func() (string, FloatE) { return r.SeparatorChar, 0.0 })", "	var sf SFFunction\n	if r.SeparatorFunc == nil {\n		if r.SeparatorChar == \"\" && r.list.lastSep != \"\" && r.Length > 3 {\n			r.SeparatorChar = r.list.lastSep\n		}\n		r.list.lastSep = r.SeparatorChar\n		sf = SFFunction(func() (string, FloatE) { return r.SeparatorChar, 0.0 })"), ("word_gen.go", "	unCapitalizableCount int\n}", "	unCapitalizableCount int\n	lastSep              string\n}")]),
  # C16
  ("c16-extra-symbol", [("char_gen.go", "	ctSymbols   = \"!@.-_*\"", "	ctSymbols   = \"!@.-_*+\"")]),
- ("c16-noambiguous2-length1", [("word_gen.go", "SFDigitsNoAmbiguous2            = NewSFFunction(CharRecipe{Length: 2, Allow: Digits, Exclude: Ambiguous})", "SFDigitsNoAmbiguous2            = NewSFFunction(CharRecipe{Length: 2, Allow: Digits, ExcludeChars: \"0O1Il5\"})")]),
+ ("c16-noambiguous2-keeps-a-zero-look-alike", [("word_gen.go", "SFDigitsNoAmbiguous2            = NewSFFunction(CharRecipe{Length: 2, Allow: Digits, Exclude: Ambiguous})", "SFDigitsNoAmbiguous2            = NewSFFunction(CharRecipe{Length: 2, Allow: Digits, ExcludeChars: \"01\"})")]),
  ("c16-maxfailrate-changed", [("char_gen.go", "	MaxFailRate = 1.0 / 1000000000 // Maximum", "	MaxFailRate = 1.0 / 100000000 // Maximum")]),
  # C17
  ("c17-symbols-maps-to-digits", [("cmd/opgen/opgen.go", "	\"symbols\":   spg.Symbols,", "	\"symbols\":   spg.Symbols | spg.Digits,")]),
